@@ -154,411 +154,438 @@ def check(ctx):
     # ---- (1) K14: the dispatch function of each reactor -------------------------------------------------------------
     per = {}
     for rel, qual, q, minimum in DISPATCH:
-        per[qual] = _check_dispatch(ctx, rel, qual, q, minimum)
-    ctx.floor("dispatch", sum(len(v[2]) for v in per.values()), 4)
+        with ctx.section("dispatch " + qual):
+            per[qual] = _check_dispatch(ctx, rel, qual, q, minimum)
+    with ctx.section("dispatch floor"):
+        ctx.need(len(per) == len(DISPATCH), "all reactor dispatch functions readable")
+        ctx.floor("dispatch", sum(len(v[2]) for v in per.values()), 4)
 
-    # poll-like specifics
-    f, g, sites, disc, vars_ = per["_PollLikeMixin._doReadOrWrite"]
-    q = DISPATCH[1][2]
-    var = next(iter(vars_)) if vars_ else "why"
-    decl = [n.id for n in g.nodes if n.kind == "stmt" and g.reachable(n.id) and isinstance(n.ast, ast.Assign)
-            and any(isinstance(t, ast.Name) and t.id == var for t in n.ast.targets)
-            and src(n.ast.value) in ("CONNECTION_DONE", "CONNECTION_LOST", "main.CONNECTION_DONE", "main.CONNECTION_LOST")]
-    ctx.floor("polllike/hangup", len(decl), 1)
-    for d in decl:
-        c = ctx.construct(q, g.node(d).ast)
-        ctx.check(implied(g, d, [{"event & self._POLL_IN": 0}], [{"event & self._POLL_IN": 1}]), "polllike/hangup-after-input", c,
-                  "a hang-up event is turned into a disconnect although input is still pending (POLL_IN set): the last bytes the peer "
-                  "wrote are dropped")
-        ctx.check(implied(g, d, [{"event & self._POLL_DISCONNECTED": 16}], [{"event & self._POLL_DISCONNECTED": 0}]), "polllike/hangup-only-on-event", c,
-                  "the connection is declared lost without a hang-up/error event")
-        if "DONE" in src(g.node(d).ast.value):
-            ctx.check(implied(g, d, [{"fd in self._reads": True}], [{"fd in self._reads": False}]), "polllike/clean-close-only-if-reading", c,
-                      "a hang-up on a descriptor that was not being read is reported as a clean ConnectionDone")
-    # direction flag: after doRead -> True, after doWrite -> False
-    flag_sets = {True: [], False: []}
-    flag_var = None
-    for n, call in calls_with(g, "self._disconnectSelectable"):
-        if len(call.args) == 3 and isinstance(call.args[2], ast.Name):
-            flag_var = call.args[2].id
-    if flag_var:
-        for x in g.nodes:
-            if x.kind == "stmt" and g.reachable(x.id) and isinstance(x.ast, ast.Assign) and any(isinstance(t, ast.Name) and t.id == flag_var for t in x.ast.targets):
-                if const_value_is(x.ast.value, lambda v: v is True):
-                    flag_sets[True].append(x.id)
-                elif const_value_is(x.ast.value, lambda v: v is False):
-                    flag_sets[False].append(x.id)
-        for n, call, v in sites:
-            kind = _is_dispatch(call, set())
-            if kind not in ("doRead", "doWrite"):
-                continue
-            want = kind == "doRead"
-            # from the dispatch (normal return) every path to a disconnect passes the matching flag write and no opposite one after it
-            w = g.must_pass([n], flag_sets[want], to=disc)
-            ctx.check(w is None, "polllike/direction-flag", ctx.construct(q, call),
-                      f"after {kind}() the isRead flag handed to _disconnectSelectable is not set to {want}: a write-side "
-                      "CONNECTION_DONE is treated as a read half-close (or the reverse) and the connection is not closed",
-                      witness=g.describe(w))
-    else:
-        ctx.violation("polllike/direction-flag", q, "_disconnectSelectable is not given a read/write direction variable")
+    with ctx.section("poll-like dispatch specifics"):
+        ctx.need("_PollLikeMixin._doReadOrWrite" in per, "dispatch function _PollLikeMixin._doReadOrWrite readable")
+        # poll-like specifics
+        f, g, sites, disc, vars_ = per["_PollLikeMixin._doReadOrWrite"]
+        q = DISPATCH[1][2]
+        var = next(iter(vars_)) if vars_ else "why"
+        decl = [n.id for n in g.nodes if n.kind == "stmt" and g.reachable(n.id) and isinstance(n.ast, ast.Assign)
+                and any(isinstance(t, ast.Name) and t.id == var for t in n.ast.targets)
+                and src(n.ast.value) in ("CONNECTION_DONE", "CONNECTION_LOST", "main.CONNECTION_DONE", "main.CONNECTION_LOST")]
+        ctx.floor("polllike/hangup", len(decl), 1)
+        for d in decl:
+            c = ctx.construct(q, g.node(d).ast)
+            ctx.check(implied(g, d, [{"event & self._POLL_IN": 0}], [{"event & self._POLL_IN": 1}]), "polllike/hangup-after-input", c,
+                      "a hang-up event is turned into a disconnect although input is still pending (POLL_IN set): the last bytes the peer "
+                      "wrote are dropped")
+            ctx.check(implied(g, d, [{"event & self._POLL_DISCONNECTED": 16}], [{"event & self._POLL_DISCONNECTED": 0}]), "polllike/hangup-only-on-event", c,
+                      "the connection is declared lost without a hang-up/error event")
+            if "DONE" in src(g.node(d).ast.value):
+                ctx.check(implied(g, d, [{"fd in self._reads": True}], [{"fd in self._reads": False}]), "polllike/clean-close-only-if-reading", c,
+                          "a hang-up on a descriptor that was not being read is reported as a clean ConnectionDone")
+        # direction flag: after doRead -> True, after doWrite -> False
+        flag_sets = {True: [], False: []}
+        flag_var = None
+        for n, call in calls_with(g, "self._disconnectSelectable"):
+            if len(call.args) == 3 and isinstance(call.args[2], ast.Name):
+                flag_var = call.args[2].id
+        if flag_var:
+            for x in g.nodes:
+                if x.kind == "stmt" and g.reachable(x.id) and isinstance(x.ast, ast.Assign) and any(isinstance(t, ast.Name) and t.id == flag_var for t in x.ast.targets):
+                    if const_value_is(x.ast.value, lambda v: v is True):
+                        flag_sets[True].append(x.id)
+                    elif const_value_is(x.ast.value, lambda v: v is False):
+                        flag_sets[False].append(x.id)
+            for n, call, v in sites:
+                kind = _is_dispatch(call, set())
+                if kind not in ("doRead", "doWrite"):
+                    continue
+                want = kind == "doRead"
+                # from the dispatch (normal return) every path to a disconnect passes the matching flag write and no opposite one after it
+                w = g.must_pass([n], flag_sets[want], to=disc)
+                ctx.check(w is None, "polllike/direction-flag", ctx.construct(q, call),
+                          f"after {kind}() the isRead flag handed to _disconnectSelectable is not set to {want}: a write-side "
+                          "CONNECTION_DONE is treated as a read half-close (or the reverse) and the connection is not closed",
+                          witness=g.describe(w))
+        else:
+            ctx.violation("polllike/direction-flag", q, "_disconnectSelectable is not given a read/write direction variable")
 
-    # select: direction argument
-    f, g, sites, disc, vars_ = per["SelectReactor._doReadOrWrite"]
-    q = DISPATCH[0][2]
-    for n, call in calls_with(g, "self._disconnectSelectable"):
-        a2 = local_def(f, call.args[2]) if len(call.args) == 3 else None
-        ok = a2 is not None and test_value(a2, {"method": "doRead"}) is True and test_value(a2, {"method": "doWrite"}) is False
-        ctx.check(ok, "select/direction", ctx.construct(q, call), "isRead is not 'method == \"doRead\"'")
-    # asyncio: direction argument is the `read` parameter and the method alias follows it
-    f, g, sites, disc, vars_ = per["AsyncioSelectorReactor._readOrWrite"]
-    q = DISPATCH[2][2]
-    rparam = f.args.args[2].arg if len(f.args.args) >= 3 else "read"
-    for n, call in calls_with(g, "self._disconnectSelectable"):
-        ctx.check(len(call.args) == 3 and src(call.args[2]) == rparam, "asyncio/direction", ctx.construct(q, call),
-                  "isRead is not the 'read' argument of _readOrWrite")
-    for st in walk_local(f):
-        if isinstance(st, ast.Assign) and isinstance(st.value, ast.IfExp) and any(isinstance(x, ast.Attribute) and x.attr == "doRead" for x in ast.walk(st.value)):
-            v = st.value
-            tv = {True: None, False: None}
-            for val in (True, False):
-                try:
-                    chosen = v.body if peval(v.test, {rparam: val}) else v.orelse
-                    tv[val] = chosen.attr if isinstance(chosen, ast.Attribute) else None
-                except Exception:  # noqa: BLE001
-                    pass
-            ctx.check(tv[True] == "doRead" and tv[False] == "doWrite", "asyncio/method-follows-direction",
-                      ctx.construct(q, st), "read=True does not select doRead / read=False does not select doWrite")
-    nofd = [n for n, call in calls_with(g, "self._disconnectSelectable") if "NO_FILEDESC" in src(call.args[1] if len(call.args) > 1 else call)]
-    for n in nofd:
-        ctx.check(implied(g, n, [{"selectable.fileno()": -1}], [{"selectable.fileno()": 7}]), "asyncio/nofd-guard", ctx.construct(q, g.node(n).ast),
-                  "a selectable with a valid file descriptor is disconnected with _NO_FILEDESC")
+    with ctx.section("select dispatch direction"):
+        ctx.need("SelectReactor._doReadOrWrite" in per, "dispatch function SelectReactor._doReadOrWrite readable")
+        # select: direction argument
+        f, g, sites, disc, vars_ = per["SelectReactor._doReadOrWrite"]
+        q = DISPATCH[0][2]
+        for n, call in calls_with(g, "self._disconnectSelectable"):
+            a2 = local_def(f, call.args[2]) if len(call.args) == 3 else None
+            ok = a2 is not None and test_value(a2, {"method": "doRead"}) is True and test_value(a2, {"method": "doWrite"}) is False
+            ctx.check(ok, "select/direction", ctx.construct(q, call), "isRead is not 'method == \"doRead\"'")
+    with ctx.section("asyncio dispatch specifics"):
+        ctx.need("AsyncioSelectorReactor._readOrWrite" in per, "dispatch function AsyncioSelectorReactor._readOrWrite readable")
+        # asyncio: direction argument is the `read` parameter and the method alias follows it
+        f, g, sites, disc, vars_ = per["AsyncioSelectorReactor._readOrWrite"]
+        q = DISPATCH[2][2]
+        rparam = f.args.args[2].arg if len(f.args.args) >= 3 else "read"
+        for n, call in calls_with(g, "self._disconnectSelectable"):
+            ctx.check(len(call.args) == 3 and src(call.args[2]) == rparam, "asyncio/direction", ctx.construct(q, call),
+                      "isRead is not the 'read' argument of _readOrWrite")
+        for st in walk_local(f):
+            if isinstance(st, ast.Assign) and isinstance(st.value, ast.IfExp) and any(isinstance(x, ast.Attribute) and x.attr == "doRead" for x in ast.walk(st.value)):
+                v = st.value
+                tv = {True: None, False: None}
+                for val in (True, False):
+                    try:
+                        chosen = v.body if peval(v.test, {rparam: val}) else v.orelse
+                        tv[val] = chosen.attr if isinstance(chosen, ast.Attribute) else None
+                    except Exception:  # noqa: BLE001
+                        pass
+                ctx.check(tv[True] == "doRead" and tv[False] == "doWrite", "asyncio/method-follows-direction",
+                          ctx.construct(q, st), "read=True does not select doRead / read=False does not select doWrite")
+        nofd = [n for n, call in calls_with(g, "self._disconnectSelectable") if "NO_FILEDESC" in src(call.args[1] if len(call.args) > 1 else call)]
+        for n in nofd:
+            ctx.check(implied(g, n, [{"selectable.fileno()": -1}], [{"selectable.fileno()": 7}]), "asyncio/nofd-guard", ctx.construct(q, g.node(n).ast),
+                      "a selectable with a valid file descriptor is disconnected with _NO_FILEDESC")
 
-    # ---- (2) the iteration loops ---------------------------------------------------------------------------------------------
-    f = ctx.func(SEL, "SelectReactor.doSelect")
-    g = ctx.cfg(f)
-    q = Q + "selectreactor.SelectReactor.doSelect"
-    drdw = {st.targets[0].id for st in walk_local(f) if isinstance(st, ast.Assign) and len(st.targets) == 1 and isinstance(st.targets[0], ast.Name)
-            and src(st.value) == "self._doReadOrWrite"} | {"self._doReadOrWrite"}
-    fires = g.find(lambda x: isinstance(x, ast.Call) and any(src(a) in drdw for a in x.args) or (isinstance(x, ast.Call) and src(x.func) in drdw))
-    ctx.need(fires, "dispatch through _doReadOrWrite in doSelect")
-    for n in fires:
-        c = ctx.construct(q, g.node(n).ast)
-        ctx.check(implied(g, n, [{"selectable not in fdset": False}, {"selectable in fdset": True}][:1], [{"selectable not in fdset": True}])
-                  or implied(g, n, [{"selectable in fdset": True}], [{"selectable in fdset": False}]),
-                  "loop/still-registered", c,
-                  "a ready selectable is dispatched without re-checking that it is still registered: a connection disconnected by an "
-                  "earlier handler in the same iteration gets doRead/doWrite (and a second loss report) after connectionLost")
-    # (ready list, method, fd set) rows
-    sel_assign = [st for st in walk_local(f) if isinstance(st, ast.Assign) and isinstance(st.value, ast.Call) and call_name(st.value) == "_select"]
-    ctx.need(sel_assign, "r, w, ignored = _select(...) in doSelect")
-    st = sel_assign[0]
-    names = [e.id if isinstance(e, ast.Name) else None for e in st.targets[0].elts] if isinstance(st.targets[0], ast.Tuple) else []
-    sargs = [src(a) for a in st.value.args]
-    rows = []
-    for loop in (x for x in walk_local(f) if isinstance(x, ast.For) and isinstance(x.iter, ast.Tuple)):
-        for row in loop.iter.elts:
-            if isinstance(row, ast.Tuple) and len(row.elts) == 3:
-                rows.append((row, [src(e) for e in row.elts]))
-    ctx.check(len(rows) == 2, "loop/select-rows", q, f"doSelect dispatches {len(rows)} (list, method, set) rows, two are required (read and write)")
-    for row, (lst, meth, fdset) in rows:
-        pos = names.index(lst) if lst in names else -1
-        want = {0: ("'doRead'", "self._reads"), 1: ("'doWrite'", "self._writes")}.get(pos)
-        ok = want is not None and (meth, fdset) == want and pos < len(sargs) and sargs[pos] == fdset
-        ctx.check(ok, "loop/select-rows", ctx.construct(q, row),
-                  "the ready list, the method name and the registration set of a dispatch row do not belong together "
-                  "(e.g. readable descriptors get doWrite, or membership is checked in the wrong set)")
-
-    for rel, cls, modq in ((POLL, "PollReactor", "pollreactor"), (EPOLL, "EPollReactor", "epollreactor")):
-        f = ctx.func(rel, f"{cls}.doPoll")
+    with ctx.section("doSelect loop"):
+        # ---- (2) the iteration loops ---------------------------------------------------------------------------------------------
+        f = ctx.func(SEL, "SelectReactor.doSelect")
         g = ctx.cfg(f)
-        q = f"{Q}{modq}.{cls}.doPoll"
+        q = Q + "selectreactor.SelectReactor.doSelect"
         drdw = {st.targets[0].id for st in walk_local(f) if isinstance(st, ast.Assign) and len(st.targets) == 1 and isinstance(st.targets[0], ast.Name)
                 and src(st.value) == "self._doReadOrWrite"} | {"self._doReadOrWrite"}
-        fires = g.find(lambda x: isinstance(x, ast.Call) and (any(src(a) in drdw for a in x.args) or src(x.func) in drdw))
-        ctx.need(fires, f"dispatch through _doReadOrWrite in {cls}.doPoll")
-        look = [n.id for n in g.nodes if n.kind == "stmt" and g.reachable(n.id) and isinstance(n.ast, ast.Assign)
-                and src(n.ast.value) == "self._selectables[fd]"]
+        fires = g.find(lambda x: isinstance(x, ast.Call) and any(src(a) in drdw for a in x.args) or (isinstance(x, ast.Call) and src(x.func) in drdw))
+        ctx.need(fires, "dispatch through _doReadOrWrite in doSelect")
         for n in fires:
             c = ctx.construct(q, g.node(n).ast)
-            w = g.must_precede(look, [n])
-            ctx.check(bool(look) and w is None, "loop/still-registered", c,
-                      "an event is dispatched without looking the descriptor up in self._selectables in this iteration "
-                      "(a connection removed by an earlier handler would get doRead/doWrite after connectionLost)", witness=g.describe(w))
-            for l in look:
-                hs = [h for h in succ_of(g, l, "exc") if g.node(h).kind == "handler" and "KeyError" in handler_names(g.node(h).ast)]
-                bad = [h for h in hs if g.path([h], [n], avoid=look, edge_ok=lambda a, b, lab: lab != "exc")]
-                ctx.check(bool(hs) and not bad, "loop/unregistered-skipped", ctx.construct(q, g.node(l).ast),
-                          "an event for a descriptor that is no longer registered is not skipped (KeyError escapes the iteration or "
-                          "the stale selectable of the previous event is dispatched again)")
+            ctx.check(implied(g, n, [{"selectable not in fdset": False}, {"selectable in fdset": True}][:1], [{"selectable not in fdset": True}])
+                      or implied(g, n, [{"selectable in fdset": True}], [{"selectable in fdset": False}]),
+                      "loop/still-registered", c,
+                      "a ready selectable is dispatched without re-checking that it is still registered: a connection disconnected by an "
+                      "earlier handler in the same iteration gets doRead/doWrite (and a second loss report) after connectionLost")
+        # (ready list, method, fd set) rows
+        sel_assign = [st for st in walk_local(f) if isinstance(st, ast.Assign) and isinstance(st.value, ast.Call) and call_name(st.value) == "_select"]
+        ctx.need(sel_assign, "r, w, ignored = _select(...) in doSelect")
+        st = sel_assign[0]
+        names = [e.id if isinstance(e, ast.Name) else None for e in st.targets[0].elts] if isinstance(st.targets[0], ast.Tuple) else []
+        sargs = [src(a) for a in st.value.args]
+        rows = []
+        for loop in (x for x in walk_local(f) if isinstance(x, ast.For) and isinstance(x.iter, ast.Tuple)):
+            for row in loop.iter.elts:
+                if isinstance(row, ast.Tuple) and len(row.elts) == 3:
+                    rows.append((row, [src(e) for e in row.elts]))
+        ctx.check(len(rows) == 2, "loop/select-rows", q, f"doSelect dispatches {len(rows)} (list, method, set) rows, two are required (read and write)")
+        for row, (lst, meth, fdset) in rows:
+            pos = names.index(lst) if lst in names else -1
+            want = {0: ("'doRead'", "self._reads"), 1: ("'doWrite'", "self._writes")}.get(pos)
+            ok = want is not None and (meth, fdset) == want and pos < len(sargs) and sargs[pos] == fdset
+            ctx.check(ok, "loop/select-rows", ctx.construct(q, row),
+                      "the ready list, the method name and the registration set of a dispatch row do not belong together "
+                      "(e.g. readable descriptors get doWrite, or membership is checked in the wrong set)")
 
-    # event masks follow the read / write sets
-    f = ctx.func(POLL, "PollReactor._updateRegistration")
-    g = ctx.cfg(f)
-    q = Q + "pollreactor.PollReactor._updateRegistration"
-    nmask = 0
-    for n in g.nodes:
-        if n.kind == "stmt" and g.reachable(n.id) and isinstance(n.ast, (ast.Assign, ast.AugAssign)) and isinstance(n.ast.value, (ast.BinOp, ast.Name)):
-            txt = src(n.ast.value)
-            for flag, owner in (("POLLIN", "self._reads"), ("POLLOUT", "self._writes")):
-                if flag in txt.replace("POLLIN", "POLLIN ").split() or txt.endswith(flag):
-                    nmask += 1
-                    ctx.check(implied(g, n.id, [{f"fd in {owner}": True}], [{f"fd in {owner}": False}]), "masks/poll", ctx.construct(q, n.ast),
-                              f"{flag} is requested without the descriptor being in {owner} (or the sets are crossed): readers are not "
-                              "woken for input / writers not for output")
-    ctx.floor("masks/poll", nmask, 2)
-    for rel, cls, modq, table in (
-            (POLL, "PollReactor", "pollreactor", {"_POLL_IN": {"POLLIN"}, "_POLL_OUT": {"POLLOUT"}, "_POLL_DISCONNECTED": {"POLLHUP", "POLLERR"}}),
-            (EPOLL, "EPollReactor", "epollreactor", {"_POLL_IN": {"EPOLLIN"}, "_POLL_OUT": {"EPOLLOUT"}, "_POLL_DISCONNECTED": {"EPOLLHUP", "EPOLLERR"}})):
-        ca = class_assigns(ctx.cls(rel, cls))
-        for attr, want in table.items():
-            have = {x.id for x in ast.walk(ca[attr]) if isinstance(x, ast.Name)} if attr in ca else set()
-            exact = attr != "_POLL_DISCONNECTED"
-            ok = (have == want) if exact else (want <= have and not (have & {"POLLIN", "POLLOUT", "EPOLLIN", "EPOLLOUT"}))
-            ctx.check(ok, "masks/class-constants", f"{Q}{modq}.{cls}.{attr}",
-                      f"{attr} is {sorted(have)}; the poll-like dispatch needs {sorted(want)}")
-    ec = ctx.cls(EPOLL, "EPollReactor")
-    want_args = {"addReader": ("_add", ["self._reads", "self._writes", "self._selectables", "EPOLLIN", "EPOLLOUT"]),
-                 "removeReader": ("_remove", ["self._reads", "self._writes", "self._selectables", "EPOLLIN", "EPOLLOUT"]),
-                 "addWriter": ("_add", ["self._writes", "self._reads", "self._selectables", "EPOLLOUT", "EPOLLIN"]),
-                 "removeWriter": ("_remove", ["self._writes", "self._reads", "self._selectables", "EPOLLOUT", "EPOLLIN"])}
-    for name, (helper, want) in want_args.items():
-        m = ctx.func(EPOLL, f"EPollReactor.{name}")
-        calls = [x for x in walk_local(m) if isinstance(x, ast.Call) and call_name(x) == f"self.{helper}"]
-        ctx.check(len(calls) == 1 and [src(a) for a in calls[0].args[1:]] == want, "masks/epoll-arguments", f"{Q}epollreactor.EPollReactor.{name}",
-                  f"{name} does not call {helper}(x, {', '.join(want)}): primary/other set or event/anti-event are crossed")
+    with ctx.section("doPoll loops"):
+        # ---- doPoll loops
+        for rel, cls, modq in ((POLL, "PollReactor", "pollreactor"), (EPOLL, "EPollReactor", "epollreactor")):
+            f = ctx.func(rel, f"{cls}.doPoll")
+            g = ctx.cfg(f)
+            q = f"{Q}{modq}.{cls}.doPoll"
+            drdw = {st.targets[0].id for st in walk_local(f) if isinstance(st, ast.Assign) and len(st.targets) == 1 and isinstance(st.targets[0], ast.Name)
+                    and src(st.value) == "self._doReadOrWrite"} | {"self._doReadOrWrite"}
+            fires = g.find(lambda x: isinstance(x, ast.Call) and (any(src(a) in drdw for a in x.args) or src(x.func) in drdw))
+            ctx.need(fires, f"dispatch through _doReadOrWrite in {cls}.doPoll")
+            look = [n.id for n in g.nodes if n.kind == "stmt" and g.reachable(n.id) and isinstance(n.ast, ast.Assign)
+                    and src(n.ast.value) == "self._selectables[fd]"]
+            for n in fires:
+                c = ctx.construct(q, g.node(n).ast)
+                w = g.must_precede(look, [n])
+                ctx.check(bool(look) and w is None, "loop/still-registered", c,
+                          "an event is dispatched without looking the descriptor up in self._selectables in this iteration "
+                          "(a connection removed by an earlier handler would get doRead/doWrite after connectionLost)", witness=g.describe(w))
+                for l in look:
+                    hs = [h for h in succ_of(g, l, "exc") if g.node(h).kind == "handler" and "KeyError" in handler_names(g.node(h).ast)]
+                    bad = [h for h in hs if g.path([h], [n], avoid=look, edge_ok=lambda a, b, lab: lab != "exc")]
+                    ctx.check(bool(hs) and not bad, "loop/unregistered-skipped", ctx.construct(q, g.node(l).ast),
+                              "an event for a descriptor that is no longer registered is not skipped (KeyError escapes the iteration or "
+                              "the stale selectable of the previous event is dispatched again)")
 
-    # ---- (3) _disconnectSelectable ----------------------------------------------------------------------------------------------
-    f = ctx.func(PB, "_DisconnectSelectableMixin._disconnectSelectable")
-    g = ctx.cfg(f)
-    q = Q + "posixbase._DisconnectSelectableMixin._disconnectSelectable"
-    sel = f.args.args[1].arg
-    why, isread = f.args.args[2].arg, f.args.args[3].arg
-    full = calls_with(g, f"{sel}.connectionLost")
-    halfc = calls_with(g, f"{sel}.readConnectionLost")
-    rr = call_nodes(g, "self.removeReader")
-    rw = call_nodes(g, "self.removeWriter")
-    ctx.check(bool(full), "disconnect/reports", q, "_disconnectSelectable never calls selectable.connectionLost")
-    allc = [n for n, _ in full + halfc]
-    w = g.must_pass([g.entry], allc)
-    ctx.check(w is None, "disconnect/reports", q + " | every path", "some path through _disconnectSelectable reports nothing to the selectable",
-              witness=g.describe(w))
-    for n, call in full + halfc:
-        c = ctx.construct(q, call)
-        w = g.must_precede(rr, [n])
-        ctx.check(bool(rr) and w is None, "disconnect/reader-removed-first", c,
-                  "the selectable is told about the loss while still registered for reading: data can be delivered after connectionLost",
+    with ctx.section("event masks"):
+        # event masks follow the read / write sets
+        f = ctx.func(POLL, "PollReactor._updateRegistration")
+        g = ctx.cfg(f)
+        q = Q + "pollreactor.PollReactor._updateRegistration"
+        nmask = 0
+        for n in g.nodes:
+            if n.kind == "stmt" and g.reachable(n.id) and isinstance(n.ast, (ast.Assign, ast.AugAssign)) and isinstance(n.ast.value, (ast.BinOp, ast.Name)):
+                txt = src(n.ast.value)
+                for flag, owner in (("POLLIN", "self._reads"), ("POLLOUT", "self._writes")):
+                    if flag in txt.replace("POLLIN", "POLLIN ").split() or txt.endswith(flag):
+                        nmask += 1
+                        ctx.check(implied(g, n.id, [{f"fd in {owner}": True}], [{f"fd in {owner}": False}]), "masks/poll", ctx.construct(q, n.ast),
+                                  f"{flag} is requested without the descriptor being in {owner} (or the sets are crossed): readers are not "
+                                  "woken for input / writers not for output")
+        ctx.floor("masks/poll", nmask, 2)
+        for rel, cls, modq, table in (
+                (POLL, "PollReactor", "pollreactor", {"_POLL_IN": {"POLLIN"}, "_POLL_OUT": {"POLLOUT"}, "_POLL_DISCONNECTED": {"POLLHUP", "POLLERR"}}),
+                (EPOLL, "EPollReactor", "epollreactor", {"_POLL_IN": {"EPOLLIN"}, "_POLL_OUT": {"EPOLLOUT"}, "_POLL_DISCONNECTED": {"EPOLLHUP", "EPOLLERR"}})):
+            ca = class_assigns(ctx.cls(rel, cls))
+            for attr, want in table.items():
+                have = {x.id for x in ast.walk(ca[attr]) if isinstance(x, ast.Name)} if attr in ca else set()
+                exact = attr != "_POLL_DISCONNECTED"
+                ok = (have == want) if exact else (want <= have and not (have & {"POLLIN", "POLLOUT", "EPOLLIN", "EPOLLOUT"}))
+                ctx.check(ok, "masks/class-constants", f"{Q}{modq}.{cls}.{attr}",
+                          f"{attr} is {sorted(have)}; the poll-like dispatch needs {sorted(want)}")
+        ec = ctx.cls(EPOLL, "EPollReactor")
+        want_args = {"addReader": ("_add", ["self._reads", "self._writes", "self._selectables", "EPOLLIN", "EPOLLOUT"]),
+                     "removeReader": ("_remove", ["self._reads", "self._writes", "self._selectables", "EPOLLIN", "EPOLLOUT"]),
+                     "addWriter": ("_add", ["self._writes", "self._reads", "self._selectables", "EPOLLOUT", "EPOLLIN"]),
+                     "removeWriter": ("_remove", ["self._writes", "self._reads", "self._selectables", "EPOLLOUT", "EPOLLIN"])}
+        for name, (helper, want) in want_args.items():
+            m = ctx.func(EPOLL, f"EPollReactor.{name}")
+            calls = [x for x in walk_local(m) if isinstance(x, ast.Call) and call_name(x) == f"self.{helper}"]
+            ctx.check(len(calls) == 1 and [src(a) for a in calls[0].args[1:]] == want, "masks/epoll-arguments", f"{Q}epollreactor.EPollReactor.{name}",
+                      f"{name} does not call {helper}(x, {', '.join(want)}): primary/other set or event/anti-event are crossed")
+
+    with ctx.section("_disconnectSelectable"):
+        # ---- (3) _disconnectSelectable ----------------------------------------------------------------------------------------------
+        f = ctx.func(PB, "_DisconnectSelectableMixin._disconnectSelectable")
+        g = ctx.cfg(f)
+        q = Q + "posixbase._DisconnectSelectableMixin._disconnectSelectable"
+        sel = f.args.args[1].arg
+        why, isread = f.args.args[2].arg, f.args.args[3].arg
+        full = calls_with(g, f"{sel}.connectionLost")
+        halfc = calls_with(g, f"{sel}.readConnectionLost")
+        rr = call_nodes(g, "self.removeReader")
+        rw = call_nodes(g, "self.removeWriter")
+        ctx.check(bool(full), "disconnect/reports", q, "_disconnectSelectable never calls selectable.connectionLost")
+        allc = [n for n, _ in full + halfc]
+        w = g.must_pass([g.entry], allc)
+        ctx.check(w is None, "disconnect/reports", q + " | every path", "some path through _disconnectSelectable reports nothing to the selectable",
                   witness=g.describe(w))
-        w = g.path([n], allc, strict=True, edge_ok=lambda a, b, l: l != "exc")
-        ctx.check(w is None, "disconnect/once", c, "two loss notifications on one path", witness=g.describe(w))
-    for n, call in full:
-        w = g.must_precede(rw, [n])
-        ctx.check(bool(rw) and w is None, "disconnect/writer-removed-first", ctx.construct(q, call),
-                  "connectionLost is delivered while the selectable is still registered for writing (doWrite after connectionLost)",
+        for n, call in full + halfc:
+            c = ctx.construct(q, call)
+            w = g.must_precede(rr, [n])
+            ctx.check(bool(rr) and w is None, "disconnect/reader-removed-first", c,
+                      "the selectable is told about the loss while still registered for reading: data can be delivered after connectionLost",
+                      witness=g.describe(w))
+            w = g.path([n], allc, strict=True, edge_ok=lambda a, b, l: l != "exc")
+            ctx.check(w is None, "disconnect/once", c, "two loss notifications on one path", witness=g.describe(w))
+        for n, call in full:
+            w = g.must_precede(rw, [n])
+            ctx.check(bool(rw) and w is None, "disconnect/writer-removed-first", ctx.construct(q, call),
+                      "connectionLost is delivered while the selectable is still registered for writing (doWrite after connectionLost)",
+                      witness=g.describe(w))
+        for n, call in halfc:
+            c = ctx.construct(q, call)
+            ctx.check(implied(g, n, [{isread: True}], [{isread: False}]), "disconnect/half-close-only-read-side", c,
+                      "a write-side loss is reported as readConnectionLost: the connection is never closed")
+            ok = any(lab == "T" and "ConnectionDone" in src(g.node(t).ast) and f"{why}.__class__" in src(g.node(t).ast) for t, lab in g.edge_guards(n))
+            ctx.check(ok, "disconnect/half-close-only-clean", c, "an error on the read side is treated as a half-close instead of a full connectionLost")
+        # the reason handed over
+        fvar = None
+        for st in walk_local(f):
+            if isinstance(st, ast.Assign) and isinstance(st.value, ast.Call) and src(st.value) == f"faildict.get({why}.__class__)" and isinstance(st.targets[0], ast.Name):
+                fvar = st.targets[0].id
+        ctx.need(fvar, "f = faildict.get(why.__class__)")
+        for n, call in full + halfc:
+            a = src(call.args[0]) if call.args else ""
+            if a == fvar:
+                ok = implied(g, n, [{fvar: NONNULL}], [{fvar: None}])
+                ctx.check(ok, "disconnect/reason", ctx.construct(q, call), "the canned failure is used although faildict had no entry (None is passed as reason)")
+            else:
+                ctx.check(a in (f"failure.Failure({why})", f"Failure({why})"), "disconnect/reason", ctx.construct(q, call),
+                          "the reason passed to connectionLost is neither the faildict entry nor Failure(why)")
+        dflt = None
+        pos = [a.arg for a in f.args.args]
+        if "faildict" in pos:
+            i = pos.index("faildict") - (len(pos) - len(f.args.defaults))
+            dflt = f.args.defaults[i] if 0 <= i < len(f.args.defaults) else None
+        ctx.need(isinstance(dflt, ast.Dict), "faildict default")
+        keys = set()
+        for k, v in zip(dflt.keys, dflt.values):
+            keys.add(src(k).split(".")[-1])
+            ctx.check(src(v) in (f"failure.Failure({src(k)}())", f"Failure({src(k)}())"), "disconnect/faildict-row", ctx.construct(q, f"faildict[{src(k)}]"),
+                      "a faildict row maps an exception class to the failure of a different class (an orderly close would be reported as lost)")
+        ctx.check({"ConnectionDone", "ConnectionLost"} <= keys, "disconnect/faildict-row", q + " | keys",
+                  "faildict lacks ConnectionDone / ConnectionLost: the half-close branch and the clean-close reason can never be selected")
+
+    with ctx.section("tcp Connection.connectionLost"):
+        # ---- (4) tcp.Connection -------------------------------------------------------------------------------------------------------
+        f = ctx.func(TCP, "Connection.connectionLost")
+        g = ctx.cfg(f)
+        q = Q + "tcp.Connection.connectionLost"
+        rparam = f.args.args[1].arg
+        guard_good, guard_bad = [{"hasattr(self, 'socket')": True}], [{"hasattr(self, 'socket')": False}]
+        outs = [(n, c) for n, c in calls_with(g, ".connectionLost") if not src(c.func).startswith(("abstract.", "FileDescriptor.", "super()"))]
+        base = [(n, c) for n, c in calls_with(g, ".connectionLost") if src(c.func).startswith(("abstract.", "FileDescriptor.", "super()"))]
+        ctx.check(len(outs) == 1, "tcp-lost/single-callout", q, f"{len(outs)} protocol.connectionLost call-outs in Connection.connectionLost (exactly one required)")
+        closes = call_nodes(g, "self._closeSocket")
+        dels = [n.id for n in g.nodes if n.kind == "stmt" and g.reachable(n.id) and isinstance(n.ast, ast.Delete)
+                and any(src(t) == "self.socket" for t in n.ast.targets)]
+        for n, call in outs:
+            c = ctx.construct(q, call)
+            ctx.check(implied(g, n, guard_good, guard_bad), "tcp-lost/once-guard", c,
+                      "protocol.connectionLost is reachable when the socket attribute is already gone: a second connectionLost "
+                      "(abortConnection + exception in dataReceived) is delivered to the protocol twice")
+            w = g.must_precede(dels, [n])
+            ctx.check(bool(dels) and w is None, "tcp-lost/guard-cleared-before-callout", c,
+                      "self.socket (the once-guard) is not deleted before the protocol.connectionLost call-out: a re-entrant "
+                      "connectionLost from the protocol passes the guard again", witness=g.describe(w))
+            ctx.check(len(call.args) == 1 and src(call.args[0]) == rparam, "tcp-lost/reason-forwarded", c,
+                      "the protocol is not given the reason the transport was given")
+            recv = src(call.func.value) if isinstance(call.func, ast.Attribute) else ""
+            if recv != "self.protocol":
+                defs = [x.id for x in g.nodes if x.kind == "stmt" and isinstance(x.ast, ast.Assign) and src(x.ast.value) == "self.protocol"
+                        and any(isinstance(t, ast.Name) and t.id == recv for t in x.ast.targets)]
+                delp = [x.id for x in g.nodes if x.kind == "stmt" and isinstance(x.ast, ast.Delete) and any(src(t) == "self.protocol" for t in x.ast.targets)]
+                ctx.check(bool(defs) and g.must_precede(defs, [n]) is None and all(g.must_precede(defs, [d]) is None for d in delp),
+                          "tcp-lost/protocol-captured", c, "the protocol reference is not captured before self.protocol is deleted")
+            for what, ns, msg in (("base-first", [b for b, _ in base], "FileDescriptor.connectionLost (stop reading/writing, stop the producer) does not run before the protocol is told: data may be delivered after connectionLost"),
+                                  ("socket-closed-first", closes, "the socket is not closed before the protocol is told about the loss")):
+                w = g.must_precede(ns, [n])
+                ctx.check(bool(ns) and w is None, "tcp-lost/" + what, c, msg, witness=g.describe(w))
+            w = must_pass_under(g, {"hasattr(self, 'socket')": True}, [n])
+            ctx.check(w is None, "tcp-lost/always-reported", c, "with the socket present some path does not reach protocol.connectionLost", witness=g.describe(w))
+        for n in closes + [b for b, _ in base] + dels:
+            ctx.check(implied(g, n, guard_good, guard_bad), "tcp-lost/once-guard", ctx.construct(q, g.node(n).ast),
+                      "tear-down work is done again on a connection whose socket is already gone")
+        for n, call in calls_with(g, "self._closeSocket"):
+            a0 = local_def(f, call.args[0]) if len(call.args) == 1 else None
+            key = f"{rparam}.check(error.ConnectionAborted)"
+            ok = a0 is not None and test_value(a0, {key: None}) is True and test_value(a0, {key: NONNULL}) is False
+            ctx.check(ok, "tcp-lost/orderly-unless-aborted", ctx.construct(q, call),
+                      "_closeSocket is not told 'orderly unless the reason is ConnectionAborted': an orderly close would reset the connection "
+                      "(peer loses data) or an abort would linger")
+
+    with ctx.section("tcp Connection._dataReceived"):
+        # ---- tcp Connection._dataReceived
+        f = ctx.func(TCP, "Connection._dataReceived")
+        g = ctx.cfg(f)
+        q = Q + "tcp.Connection._dataReceived"
+        dparam = f.args.args[1].arg
+        deliver = call_nodes(g, "self.protocol.dataReceived")
+        done_ret = [n.id for n in g.nodes if n.kind == "stmt" and isinstance(n.ast, ast.Return) and n.ast.value is not None
+                    and src(n.ast.value) in ("main.CONNECTION_DONE", "CONNECTION_DONE")]
+        w = must_pass_under(g, {dparam: b""}, done_ret)
+        ctx.check(bool(done_ret) and w is None, "tcp-read/eof-is-connection-done", q + " | <empty read>",
+                  "an empty read (orderly shutdown by the peer) does not make doRead return CONNECTION_DONE: the close is reported as "
+                  "something else or not at all", witness=g.describe(w))
+        R = reach_under(g, {dparam: b""})
+        ctx.check(not (R & set(deliver)), "tcp-read/eof-not-delivered", q + " | <empty read>", "an empty read is delivered to the protocol as data")
+        w = must_pass_under(g, {dparam: b"x"}, deliver)
+        ctx.check(bool(deliver) and w is None, "tcp-read/data-delivered", q + " | <non-empty read>", "received bytes are not handed to protocol.dataReceived",
                   witness=g.describe(w))
-    for n, call in halfc:
-        c = ctx.construct(q, call)
-        ctx.check(implied(g, n, [{isread: True}], [{isread: False}]), "disconnect/half-close-only-read-side", c,
-                  "a write-side loss is reported as readConnectionLost: the connection is never closed")
-        ok = any(lab == "T" and "ConnectionDone" in src(g.node(t).ast) and f"{why}.__class__" in src(g.node(t).ast) for t, lab in g.edge_guards(n))
-        ctx.check(ok, "disconnect/half-close-only-clean", c, "an error on the read side is treated as a half-close instead of a full connectionLost")
-    # the reason handed over
-    fvar = None
-    for st in walk_local(f):
-        if isinstance(st, ast.Assign) and isinstance(st.value, ast.Call) and src(st.value) == f"faildict.get({why}.__class__)" and isinstance(st.targets[0], ast.Name):
-            fvar = st.targets[0].id
-    ctx.need(fvar, "f = faildict.get(why.__class__)")
-    for n, call in full + halfc:
-        a = src(call.args[0]) if call.args else ""
-        if a == fvar:
-            ok = implied(g, n, [{fvar: NONNULL}], [{fvar: None}])
-            ctx.check(ok, "disconnect/reason", ctx.construct(q, call), "the canned failure is used although faildict had no entry (None is passed as reason)")
-        else:
-            ctx.check(a in (f"failure.Failure({why})", f"Failure({why})"), "disconnect/reason", ctx.construct(q, call),
-                      "the reason passed to connectionLost is neither the faildict entry nor Failure(why)")
-    dflt = None
-    pos = [a.arg for a in f.args.args]
-    if "faildict" in pos:
-        i = pos.index("faildict") - (len(pos) - len(f.args.defaults))
-        dflt = f.args.defaults[i] if 0 <= i < len(f.args.defaults) else None
-    ctx.need(isinstance(dflt, ast.Dict), "faildict default")
-    keys = set()
-    for k, v in zip(dflt.keys, dflt.values):
-        keys.add(src(k).split(".")[-1])
-        ctx.check(src(v) in (f"failure.Failure({src(k)}())", f"Failure({src(k)}())"), "disconnect/faildict-row", ctx.construct(q, f"faildict[{src(k)}]"),
-                  "a faildict row maps an exception class to the failure of a different class (an orderly close would be reported as lost)")
-    ctx.check({"ConnectionDone", "ConnectionLost"} <= keys, "disconnect/faildict-row", q + " | keys",
-              "faildict lacks ConnectionDone / ConnectionLost: the half-close branch and the clean-close reason can never be selected")
+        for n, call in calls_with(g, "self.protocol.dataReceived"):
+            ctx.check(len(call.args) == 1 and src(call.args[0]) == dparam, "tcp-read/data-delivered", ctx.construct(q, call),
+                      "protocol.dataReceived is not given exactly the bytes read")
+        R = reach_under(g, {dparam: b"x"})
+        ctx.check(not (R & set(done_ret)), "tcp-read/eof-is-connection-done", q + " | <non-empty read>", "CONNECTION_DONE is returned for a non-empty read")
 
-    # ---- (4) tcp.Connection -------------------------------------------------------------------------------------------------------
-    f = ctx.func(TCP, "Connection.connectionLost")
-    g = ctx.cfg(f)
-    q = Q + "tcp.Connection.connectionLost"
-    rparam = f.args.args[1].arg
-    guard_good, guard_bad = [{"hasattr(self, 'socket')": True}], [{"hasattr(self, 'socket')": False}]
-    outs = [(n, c) for n, c in calls_with(g, ".connectionLost") if not src(c.func).startswith(("abstract.", "FileDescriptor.", "super()"))]
-    base = [(n, c) for n, c in calls_with(g, ".connectionLost") if src(c.func).startswith(("abstract.", "FileDescriptor.", "super()"))]
-    ctx.check(len(outs) == 1, "tcp-lost/single-callout", q, f"{len(outs)} protocol.connectionLost call-outs in Connection.connectionLost (exactly one required)")
-    closes = call_nodes(g, "self._closeSocket")
-    dels = [n.id for n in g.nodes if n.kind == "stmt" and g.reachable(n.id) and isinstance(n.ast, ast.Delete)
-            and any(src(t) == "self.socket" for t in n.ast.targets)]
-    for n, call in outs:
-        c = ctx.construct(q, call)
-        ctx.check(implied(g, n, guard_good, guard_bad), "tcp-lost/once-guard", c,
-                  "protocol.connectionLost is reachable when the socket attribute is already gone: a second connectionLost "
-                  "(abortConnection + exception in dataReceived) is delivered to the protocol twice")
-        w = g.must_precede(dels, [n])
-        ctx.check(bool(dels) and w is None, "tcp-lost/guard-cleared-before-callout", c,
-                  "self.socket (the once-guard) is not deleted before the protocol.connectionLost call-out: a re-entrant "
-                  "connectionLost from the protocol passes the guard again", witness=g.describe(w))
-        ctx.check(len(call.args) == 1 and src(call.args[0]) == rparam, "tcp-lost/reason-forwarded", c,
-                  "the protocol is not given the reason the transport was given")
-        recv = src(call.func.value) if isinstance(call.func, ast.Attribute) else ""
-        if recv != "self.protocol":
-            defs = [x.id for x in g.nodes if x.kind == "stmt" and isinstance(x.ast, ast.Assign) and src(x.ast.value) == "self.protocol"
-                    and any(isinstance(t, ast.Name) and t.id == recv for t in x.ast.targets)]
-            delp = [x.id for x in g.nodes if x.kind == "stmt" and isinstance(x.ast, ast.Delete) and any(src(t) == "self.protocol" for t in x.ast.targets)]
-            ctx.check(bool(defs) and g.must_precede(defs, [n]) is None and all(g.must_precede(defs, [d]) is None for d in delp),
-                      "tcp-lost/protocol-captured", c, "the protocol reference is not captured before self.protocol is deleted")
-        for what, ns, msg in (("base-first", [b for b, _ in base], "FileDescriptor.connectionLost (stop reading/writing, stop the producer) does not run before the protocol is told: data may be delivered after connectionLost"),
-                              ("socket-closed-first", closes, "the socket is not closed before the protocol is told about the loss")):
-            w = g.must_precede(ns, [n])
-            ctx.check(bool(ns) and w is None, "tcp-lost/" + what, c, msg, witness=g.describe(w))
-        w = must_pass_under(g, {"hasattr(self, 'socket')": True}, [n])
-        ctx.check(w is None, "tcp-lost/always-reported", c, "with the socket present some path does not reach protocol.connectionLost", witness=g.describe(w))
-    for n in closes + [b for b, _ in base] + dels:
-        ctx.check(implied(g, n, guard_good, guard_bad), "tcp-lost/once-guard", ctx.construct(q, g.node(n).ast),
-                  "tear-down work is done again on a connection whose socket is already gone")
-    for n, call in calls_with(g, "self._closeSocket"):
-        a0 = local_def(f, call.args[0]) if len(call.args) == 1 else None
-        key = f"{rparam}.check(error.ConnectionAborted)"
-        ok = a0 is not None and test_value(a0, {key: None}) is True and test_value(a0, {key: NONNULL}) is False
-        ctx.check(ok, "tcp-lost/orderly-unless-aborted", ctx.construct(q, call),
-                  "_closeSocket is not told 'orderly unless the reason is ConnectionAborted': an orderly close would reset the connection "
-                  "(peer loses data) or an abort would linger")
+    with ctx.section("tcp Connection.doRead"):
+        # ---- tcp Connection.doRead
+        f = ctx.func(TCP, "Connection.doRead")
+        g = ctx.cfg(f)
+        q = Q + "tcp.Connection.doRead"
+        lost = [n.id for n in g.nodes if n.kind == "stmt" and isinstance(n.ast, ast.Return) and n.ast.value is not None and "CONNECTION_LOST" in src(n.ast.value)]
+        ctx.floor("tcp-read/wouldblock", len(lost), 1)
+        for n in lost:
+            ok = any("EWOULDBLOCK" in src(g.node(t).ast) and ((lab == "F" and "==" in src(g.node(t).ast)) or (lab == "T" and "!=" in src(g.node(t).ast)) or
+                                                              (lab == "F" and " in " in src(g.node(t).ast)))
+                     for t, lab in g.edge_guards(n))
+            ctx.check(ok, "tcp-read/wouldblock-is-not-loss", ctx.construct(q, g.node(n).ast),
+                      "EWOULDBLOCK from recv() is reported as a lost connection")
+        recvs = calls_with(g, "self.socket.recv")
+        ctx.need(recvs, "self.socket.recv in doRead")
+        dr = call_nodes(g, "self._dataReceived")
+        for n, call in recvs:
+            w = g.must_pass([n], dr)
+            ctx.check(bool(dr) and w is None, "tcp-read/recv-result-processed", ctx.construct(q, call), "bytes returned by recv() can be dropped without _dataReceived",
+                      witness=g.describe(w))
+        for n, call in calls_with(g, "self._dataReceived"):
+            ctx.check(value_returned(g, n, call), "tcp-read/result-returned", ctx.construct(q, call),
+                      "the result of _dataReceived (CONNECTION_DONE on EOF) is not returned to the reactor")
 
-    f = ctx.func(TCP, "Connection._dataReceived")
-    g = ctx.cfg(f)
-    q = Q + "tcp.Connection._dataReceived"
-    dparam = f.args.args[1].arg
-    deliver = call_nodes(g, "self.protocol.dataReceived")
-    done_ret = [n.id for n in g.nodes if n.kind == "stmt" and isinstance(n.ast, ast.Return) and n.ast.value is not None
-                and src(n.ast.value) in ("main.CONNECTION_DONE", "CONNECTION_DONE")]
-    w = must_pass_under(g, {dparam: b""}, done_ret)
-    ctx.check(bool(done_ret) and w is None, "tcp-read/eof-is-connection-done", q + " | <empty read>",
-              "an empty read (orderly shutdown by the peer) does not make doRead return CONNECTION_DONE: the close is reported as "
-              "something else or not at all", witness=g.describe(w))
-    R = reach_under(g, {dparam: b""})
-    ctx.check(not (R & set(deliver)), "tcp-read/eof-not-delivered", q + " | <empty read>", "an empty read is delivered to the protocol as data")
-    w = must_pass_under(g, {dparam: b"x"}, deliver)
-    ctx.check(bool(deliver) and w is None, "tcp-read/data-delivered", q + " | <non-empty read>", "received bytes are not handed to protocol.dataReceived",
-              witness=g.describe(w))
-    for n, call in calls_with(g, "self.protocol.dataReceived"):
-        ctx.check(len(call.args) == 1 and src(call.args[0]) == dparam, "tcp-read/data-delivered", ctx.construct(q, call),
-                  "protocol.dataReceived is not given exactly the bytes read")
-    R = reach_under(g, {dparam: b"x"})
-    ctx.check(not (R & set(done_ret)), "tcp-read/eof-is-connection-done", q + " | <non-empty read>", "CONNECTION_DONE is returned for a non-empty read")
+    with ctx.section("tcp Connection.writeSomeData"):
+        # ---- tcp Connection.writeSomeData
+        f = ctx.func(TCP, "Connection.writeSomeData")
+        g = ctx.cfg(f)
+        q = Q + "tcp.Connection.writeSomeData"
+        dparam = f.args.args[1].arg
+        sends = [c for c in (x for x in walk_local(f) if isinstance(x, ast.Call)) if any(src(a) == "self.socket.send" for a in c.args) or call_name(c) == "self.socket.send"]
+        ctx.need(sends, "socket.send in writeSomeData")
+        for c in sends:
+            payload = [a for a in c.args if src(a) != "self.socket.send"]
+            ok = False
+            if len(payload) == 1:
+                p = payload[0]
+                if isinstance(p, ast.Name) and p.id != dparam:
+                    defs = [st.value for st in walk_local(f) if isinstance(st, ast.Assign) and any(isinstance(t, ast.Name) and t.id == p.id for t in st.targets)]
+                    p = defs[0] if len(defs) == 1 else p
+                if src(p) == dparam:
+                    ok = True
+                elif isinstance(p, ast.Call) and call_name(p) == "lazyByteSlice" and len(p.args) >= 2 and src(p.args[0]) == dparam and const_value_is(p.args[1], lambda v: v == 0 and v is not False):
+                    ok = True
+                elif isinstance(p, ast.Subscript) and isinstance(p.slice, ast.Slice) and src(p.value) == dparam and (p.slice.lower is None or const_value_is(p.slice.lower, lambda v: v == 0)):
+                    ok = True
+            ctx.check(ok, "tcp-write/sends-prefix", ctx.construct(q, c),
+                      "the bytes handed to send() are not a prefix of the data given to writeSomeData: the returned count no longer "
+                      "describes how far FileDescriptor.offset may advance (bytes skipped or duplicated)")
+            outer = next((x for x in walk_local(f) if isinstance(x, ast.Call) and x is not c and any(y is c for y in ast.walk(x))), c)
+            outer = c if call_name(c) != "self.socket.send" and outer is c else outer
+            for n in g.ids_of(c):
+                top = next((x for x in walk_local(g.node(n).ast) if isinstance(x, ast.Call)), c)
+                ctx.check(value_returned(g, n, top), "tcp-write/count-returned", ctx.construct(q, c) + " | returned",
+                          "the byte count accepted by send() is not returned")
+        zero = [n.id for n in g.nodes if n.kind == "stmt" and isinstance(n.ast, ast.Return) and const_value_is(n.ast.value, lambda v: v == 0 and v is not False)]
+        for n in zero:
+            ok = any("EWOULDBLOCK" in src(g.node(t).ast) and lab == "T" for t, lab in g.edge_guards(n))
+            ctx.check(ok, "tcp-write/zero-only-wouldblock", ctx.construct(q, g.node(n).ast), "writeSomeData reports 0 bytes for an error other than EWOULDBLOCK/ENOBUFS")
+        lost = [n.id for n in g.nodes if n.kind == "stmt" and isinstance(n.ast, ast.Return) and n.ast.value is not None and "CONNECTION_LOST" in src(n.ast.value)]
+        for n in lost:
+            ok = any("EWOULDBLOCK" in src(g.node(t).ast) and lab == "F" for t, lab in g.edge_guards(n))
+            ctx.check(ok, "tcp-write/wouldblock-is-not-loss", ctx.construct(q, g.node(n).ast), "EWOULDBLOCK from send() is reported as a lost connection")
+        ctx.floor("tcp-write", len(zero) + len(lost), 2)
 
-    f = ctx.func(TCP, "Connection.doRead")
-    g = ctx.cfg(f)
-    q = Q + "tcp.Connection.doRead"
-    lost = [n.id for n in g.nodes if n.kind == "stmt" and isinstance(n.ast, ast.Return) and n.ast.value is not None and "CONNECTION_LOST" in src(n.ast.value)]
-    ctx.floor("tcp-read/wouldblock", len(lost), 1)
-    for n in lost:
-        ok = any("EWOULDBLOCK" in src(g.node(t).ast) and ((lab == "F" and "==" in src(g.node(t).ast)) or (lab == "T" and "!=" in src(g.node(t).ast)) or
-                                                          (lab == "F" and " in " in src(g.node(t).ast)))
-                 for t, lab in g.edge_guards(n))
-        ctx.check(ok, "tcp-read/wouldblock-is-not-loss", ctx.construct(q, g.node(n).ast),
-                  "EWOULDBLOCK from recv() is reported as a lost connection")
-    recvs = calls_with(g, "self.socket.recv")
-    ctx.need(recvs, "self.socket.recv in doRead")
-    dr = call_nodes(g, "self._dataReceived")
-    for n, call in recvs:
-        w = g.must_pass([n], dr)
-        ctx.check(bool(dr) and w is None, "tcp-read/recv-result-processed", ctx.construct(q, call), "bytes returned by recv() can be dropped without _dataReceived",
-                  witness=g.describe(w))
-    for n, call in calls_with(g, "self._dataReceived"):
-        ctx.check(value_returned(g, n, call), "tcp-read/result-returned", ctx.construct(q, call),
-                  "the result of _dataReceived (CONNECTION_DONE on EOF) is not returned to the reactor")
+    with ctx.section("tcp Connection._closeWriteConnection"):
+        # ---- tcp Connection._closeWriteConnection
+        f = ctx.func(TCP, "Connection._closeWriteConnection")
+        q = Q + "tcp.Connection._closeWriteConnection"
+        sh = [x for x in walk_local(f) if isinstance(x, ast.Call) and call_name(x) == "self.socket.shutdown"]
+        ctx.check(len(sh) == 1 and len(sh[0].args) == 1 and (const_value_is(sh[0].args[0], lambda v: v == 1) or src(sh[0].args[0]).endswith("SHUT_WR")),
+                  "tcp-half-close/write-side-only", q,
+                  "the half-close does not shut down exactly the write side (shutdown(1)): the peer's remaining data would be cut off or nothing is shut")
 
-    f = ctx.func(TCP, "Connection.writeSomeData")
-    g = ctx.cfg(f)
-    q = Q + "tcp.Connection.writeSomeData"
-    dparam = f.args.args[1].arg
-    sends = [c for c in (x for x in walk_local(f) if isinstance(x, ast.Call)) if any(src(a) == "self.socket.send" for a in c.args) or call_name(c) == "self.socket.send"]
-    ctx.need(sends, "socket.send in writeSomeData")
-    for c in sends:
-        payload = [a for a in c.args if src(a) != "self.socket.send"]
-        ok = False
-        if len(payload) == 1:
-            p = payload[0]
-            if isinstance(p, ast.Name) and p.id != dparam:
-                defs = [st.value for st in walk_local(f) if isinstance(st, ast.Assign) and any(isinstance(t, ast.Name) and t.id == p.id for t in st.targets)]
-                p = defs[0] if len(defs) == 1 else p
-            if src(p) == dparam:
-                ok = True
-            elif isinstance(p, ast.Call) and call_name(p) == "lazyByteSlice" and len(p.args) >= 2 and src(p.args[0]) == dparam and const_value_is(p.args[1], lambda v: v == 0 and v is not False):
-                ok = True
-            elif isinstance(p, ast.Subscript) and isinstance(p.slice, ast.Slice) and src(p.value) == dparam and (p.slice.lower is None or const_value_is(p.slice.lower, lambda v: v == 0)):
-                ok = True
-        ctx.check(ok, "tcp-write/sends-prefix", ctx.construct(q, c),
-                  "the bytes handed to send() are not a prefix of the data given to writeSomeData: the returned count no longer "
-                  "describes how far FileDescriptor.offset may advance (bytes skipped or duplicated)")
-        outer = next((x for x in walk_local(f) if isinstance(x, ast.Call) and x is not c and any(y is c for y in ast.walk(x))), c)
-        outer = c if call_name(c) != "self.socket.send" and outer is c else outer
-        for n in g.ids_of(c):
-            top = next((x for x in walk_local(g.node(n).ast) if isinstance(x, ast.Call)), c)
-            ctx.check(value_returned(g, n, top), "tcp-write/count-returned", ctx.construct(q, c) + " | returned",
-                      "the byte count accepted by send() is not returned")
-    zero = [n.id for n in g.nodes if n.kind == "stmt" and isinstance(n.ast, ast.Return) and const_value_is(n.ast.value, lambda v: v == 0 and v is not False)]
-    for n in zero:
-        ok = any("EWOULDBLOCK" in src(g.node(t).ast) and lab == "T" for t, lab in g.edge_guards(n))
-        ctx.check(ok, "tcp-write/zero-only-wouldblock", ctx.construct(q, g.node(n).ast), "writeSomeData reports 0 bytes for an error other than EWOULDBLOCK/ENOBUFS")
-    lost = [n.id for n in g.nodes if n.kind == "stmt" and isinstance(n.ast, ast.Return) and n.ast.value is not None and "CONNECTION_LOST" in src(n.ast.value)]
-    for n in lost:
-        ok = any("EWOULDBLOCK" in src(g.node(t).ast) and lab == "F" for t, lab in g.edge_guards(n))
-        ctx.check(ok, "tcp-write/wouldblock-is-not-loss", ctx.construct(q, g.node(n).ast), "EWOULDBLOCK from send() is reported as a lost connection")
-    ctx.floor("tcp-write", len(zero) + len(lost), 2)
+    with ctx.section("tcp _closeSocket"):
+        # ---- tcp _SocketCloser._closeSocket
+        f = ctx.func(TCP, "_SocketCloser._closeSocket")
+        g = ctx.cfg(f)
+        q = Q + "tcp._SocketCloser._closeSocket"
+        cl = call_nodes(g, "skt.close", "self.socket.close")
+        w = g.must_pass([g.entry], cl)
+        ctx.check(bool(cl) and w is None, "tcp-close/always-closes", q, "some path through _closeSocket does not close the socket", witness=g.describe(w))
+        for n in call_nodes(g, "skt.shutdown", "self.socket.shutdown"):
+            ctx.check(implied(g, n, [{"orderly": True}], [{"orderly": False}]), "tcp-close/orderly-shutdown", ctx.construct(q, g.node(n).ast),
+                      "shutdown() is attempted on the abortive path")
+        for n in call_nodes(g, "skt.setsockopt", "self.socket.setsockopt"):
+            ctx.check(implied(g, n, [{"orderly": False}], [{"orderly": True}]), "tcp-close/reset-only-on-abort", ctx.construct(q, g.node(n).ast),
+                      "SO_LINGER(1,0) (connection reset) is applied to an orderly close: unsent data is discarded and the peer sees a reset "
+                      "instead of the bytes written before loseConnection")
 
-    f = ctx.func(TCP, "Connection._closeWriteConnection")
-    q = Q + "tcp.Connection._closeWriteConnection"
-    sh = [x for x in walk_local(f) if isinstance(x, ast.Call) and call_name(x) == "self.socket.shutdown"]
-    ctx.check(len(sh) == 1 and len(sh[0].args) == 1 and (const_value_is(sh[0].args[0], lambda v: v == 1) or src(sh[0].args[0]).endswith("SHUT_WR")),
-              "tcp-half-close/write-side-only", q,
-              "the half-close does not shut down exactly the write side (shutdown(1)): the peer's remaining data would be cut off or nothing is shut")
-
-    f = ctx.func(TCP, "_SocketCloser._closeSocket")
-    g = ctx.cfg(f)
-    q = Q + "tcp._SocketCloser._closeSocket"
-    cl = call_nodes(g, "skt.close", "self.socket.close")
-    w = g.must_pass([g.entry], cl)
-    ctx.check(bool(cl) and w is None, "tcp-close/always-closes", q, "some path through _closeSocket does not close the socket", witness=g.describe(w))
-    for n in call_nodes(g, "skt.shutdown", "self.socket.shutdown"):
-        ctx.check(implied(g, n, [{"orderly": True}], [{"orderly": False}]), "tcp-close/orderly-shutdown", ctx.construct(q, g.node(n).ast),
-                  "shutdown() is attempted on the abortive path")
-    for n in call_nodes(g, "skt.setsockopt", "self.socket.setsockopt"):
-        ctx.check(implied(g, n, [{"orderly": False}], [{"orderly": True}]), "tcp-close/reset-only-on-abort", ctx.construct(q, g.node(n).ast),
-                  "SO_LINGER(1,0) (connection reset) is applied to an orderly close: unsent data is discarded and the peer sees a reset "
-                  "instead of the bytes written before loseConnection")
-
-    f = ctx.func(TCP, "_AbortingMixin.abortConnection")
-    g = ctx.cfg(f)
-    q = Q + "tcp._AbortingMixin.abortConnection"
-    sched = [n for n, c in calls_with(g, "self.reactor.callLater") if any(src(a) == "self.connectionLost" for a in c.args)] + call_nodes(g, "self.connectionLost")
-    ctx.check(len(sched) == 1, "abort/schedules-loss-once", q, f"abortConnection arranges connectionLost at {len(sched)} places (exactly one)")
-    aset = self_assigns(g, "_aborting", lambda v: const_value_is(v, lambda x: x is True))
-    for n in sched:
-        c = ctx.construct(q, g.node(n).ast)
-        ctx.check(implied(g, n, [{"self._aborting": False}], [{"self._aborting": True}]), "abort/once-guard", c,
-                  "a second abortConnection() schedules a second connectionLost")
-        ctx.check(implied(g, n, [{"self.disconnected": 0}], [{"self.disconnected": 1}]), "abort/not-after-loss", c,
-                  "abortConnection() on a disconnected transport schedules another connectionLost")
-        ctx.check(bool(aset) and g.must_precede(aset, [n]) is None, "abort/once-guard", c + " | flag", "_aborting is not set before connectionLost is scheduled")
-        ctx.check("ConnectionAborted" in src(g.node(n).ast), "abort/reason", c, "the abort is not reported as ConnectionAborted (the socket would be closed orderly)")
-        for attr in ("doRead", "doWrite"):
-            st = self_assigns(g, attr)
-            ctx.check(bool(st) and g.must_precede(st, [n]) is None,
-                      "abort/io-disabled", c + f" | {attr}",
-                      f"{attr} is not neutralised by abortConnection(): buffered data is still sent / data still delivered after the abort")
+    with ctx.section("tcp abortConnection"):
+        # ---- tcp _AbortingMixin.abortConnection
+        f = ctx.func(TCP, "_AbortingMixin.abortConnection")
+        g = ctx.cfg(f)
+        q = Q + "tcp._AbortingMixin.abortConnection"
+        sched = [n for n, c in calls_with(g, "self.reactor.callLater") if any(src(a) == "self.connectionLost" for a in c.args)] + call_nodes(g, "self.connectionLost")
+        ctx.check(len(sched) == 1, "abort/schedules-loss-once", q, f"abortConnection arranges connectionLost at {len(sched)} places (exactly one)")
+        aset = self_assigns(g, "_aborting", lambda v: const_value_is(v, lambda x: x is True))
+        for n in sched:
+            c = ctx.construct(q, g.node(n).ast)
+            ctx.check(implied(g, n, [{"self._aborting": False}], [{"self._aborting": True}]), "abort/once-guard", c,
+                      "a second abortConnection() schedules a second connectionLost")
+            ctx.check(implied(g, n, [{"self.disconnected": 0}], [{"self.disconnected": 1}]), "abort/not-after-loss", c,
+                      "abortConnection() on a disconnected transport schedules another connectionLost")
+            ctx.check(bool(aset) and g.must_precede(aset, [n]) is None, "abort/once-guard", c + " | flag", "_aborting is not set before connectionLost is scheduled")
+            ctx.check("ConnectionAborted" in src(g.node(n).ast), "abort/reason", c, "the abort is not reported as ConnectionAborted (the socket would be closed orderly)")
+            for attr in ("doRead", "doWrite"):
+                st = self_assigns(g, attr)
+                ctx.check(bool(st) and g.must_precede(st, [n]) is None,
+                          "abort/io-disabled", c + f" | {attr}",
+                          f"{attr} is not neutralised by abortConnection(): buffered data is still sent / data still delivered after the abort")
 
 
 MUTANTS = [
